@@ -14,17 +14,26 @@ MC_CPY = dict(scopes="ScopesGS", fns='"f"', pnames="", onames='"x"', odata="Type
 # doubles: one expectation with tolerance 0 / default / small / negative / -inf, one actual value equal, one unit off, on and beyond
 # the edge of the default tolerance
 MC_DBL = dict(fns='"f"', pnames='"p"', vals="ValsDbl", ns="1", maxexp=1, maxcalls=1, flags="FALSE")
+# the comparator domain (equality of the whole object / of the first field, never, always, expected-below-actual) x the object pairs (the
+# very same object, the same content in another object, another content): one scope, one expectation, one call
+MC_IDENT = dict(fns='"f"', pnames='"p"', vals="ValsObjIdQ", ns="1", maxexp=1, maxcalls=1, maxinst=1, flags="FALSE")
 MC_QUICK = [("typed", dict(fns='"f"', pnames="", rets="RetsTyped", getters="GetTyped", maxexp=1, ns="1, 2", maxcalls=2)),
-            ("comparators", MC_CMP), ("copiers", MC_CPY), ("doubles", MC_DBL)]
+            ("comparators", MC_CMP), ("identity", MC_IDENT), ("copiers", MC_CPY), ("doubles", MC_DBL)]
 MC_THOROUGH = [("typed", dict(fns='"f", "g"', pnames='"p"', rets="RetsTyped", getters="GetTyped", maxexp=1, ns="1, 2", maxcalls=3)),
                ("typed2", dict(fns='"f"', pnames="", rets="RetsTyped", getters="GetTyped", maxexp=2, ns="1", maxcalls=3)),
                ("core", dict(maxcalls=3)),
                ("scopes", dict(scopes="ScopesGS", fns='"f"', ns="1", maxexp=1, maxcalls=3, rets="Rets2", getters="GetTyped")),
-               ("comparators", dict(MC_CMP, vals="ValsObj1", maxinst=2, maxcalls=2)), ("comparators3", dict(MC_CMP, scopes="ScopesGST")),
+               # (two installations per scope / three scopes: the two equalities only; every comparison function: two scopes, one installation each)
+               ("comparators", dict(MC_CMP, vals="ValsObj1", maxinst=2, maxcalls=2, cmpx="CmpPlain")),
+               ("comparators3", dict(MC_CMP, scopes="ScopesGST", cmpx="CmpPlain")), ("comparators5", MC_CMP),
+               ("identity", dict(MC_IDENT, vals="ValsObjId", maxcalls=2)),
                ("copiers", dict(MC_CPY, maxinst=2, maxcalls=2)), ("doubles", dict(MC_DBL, ns="1, 2", maxcalls=2))]
 GEN = [("bfs", 5, None, None, dict(fns='"f"', ns="1", maxexp=1, maxcalls=2, rets="RetsTyped", getters="GetTyped")),
        # double parameters: every tolerance class x every distance class, exhaustively for one expectation and one call
        ("bfsdbl", 5, None, None, dict(fns='"f"', pnames='"p"', vals="ValsDbl", ns="1", maxexp=1, maxcalls=1, rets="Rets1", flags="FALSE")),
+       # user-type parameters: every comparison function x every pair (expected object, actual object) among three contents, each in an object
+       # of its own and in a shared one (the expectation and the call may hold the very same object), exhaustively for one expectation and one call
+       ("bfscmp", 5, None, None, dict(fns='"f"', pnames='"p"', vals="ValsObjId", ns="1", maxexp=1, maxcalls=1, rets="Rets1", maxinst=1, flags="FALSE")),
        ("sim", 14, 12, 500, dict(pnames='"p", "q"', vals="Vals3", rets="RetsTyped", getters="GetTyped", maxexp=3, ns="0, 1, 2", maxcalls=5)),
        ("simout", 14, 8, 300, dict(fns='"f"', pnames='"p"', rets="Rets3", getters="GetTyped", onames='"x"', odata="Raw2", maxexp=3, ns="1, 2", maxcalls=4)),
        ("simscope", 16, 10, 300, dict(scopes="ScopesGS", fns='"f"', pnames='"p"', rets="RetsTyped", getters="GetTyped", maxexp=2, ns="1, 2",
@@ -214,6 +223,21 @@ def sweep(rng, quick):
                       ["ret", "", "value", "call"], ["check"], ["end"]])
         # no comparator for the name in this scope
         execs.append([["installcmp", "s", tn, md], ["expect", "", "f", 1, 0, 1, "-", "-", "-"], ["begin", "", "f"], ["param", "", "p", "O|%s|2,3" % tn], ["check"], ["end"]])
+    # (1c) the comparator domain x the pairs of objects: every comparison function - also those that are no equivalence (never / always equal,
+    # expected below actual) - decides alone, whatever the two objects are: the very same object on both sides (the n-th shared object), the
+    # same content in another shared object / in an object of its own, a content that agrees in the first field only, a greater / smaller
+    # first field; the expectation holds a shared object or one of its own; in the global scope and in a child scope; twice in one test
+    for j, md in enumerate(G.CMP_MODES):
+        for S in ("", "s"):
+            tn = tns[(5 * j + 2 * (S == "s")) % len(tns)]
+            for expd in ("O|%s|2,3|1" % tn, "O|%s|2,3" % tn):
+                for act in ("O|%s|2,3|1" % tn, "O|%s|2,3|2" % tn, "O|%s|2,3" % tn, "O|%s|2,1|1" % tn, "O|%s|3,3|1" % tn, "O|%s|1,3" % tn):
+                    if expd.count("|") == 2 and act not in ("O|%s|2,3|1" % tn, "O|%s|2,3" % tn, "O|%s|3,3|1" % tn):
+                        continue
+                    execs.append([["installcmp", S, tn, md], ["expect", S, "f", 1, 0, 0, "p=" + expd, "-", "-"], ["begin", S, "f"], ["param", S, "p", act],
+                                  ["ret", S, "value", rng.choice(["call", "support"])], ["check"], ["end"]])
+            execs.append([["installcmp", "", tn, md], ["expect", S, "f", 2, 0, 0, "p=O|%s|1,1|2" % tn, "-", enc_int("int", 6)], ["begin", S, "f"], ["param", S, "p", "O|%s|1,1|2" % tn],
+                          ["ret", S, "int", "call"], ["begin", S, "f"], ["param", S, "p", "O|%s|2,1|2" % tn], ["ret", S, "int", "call"], ["check"], ["end"]])
     # (2) return values: every return type x every getter
     rvals = [enc_int(c, v) for c, v in ints] + ["B|0", "B|1", "P|v|1", "P|c|2", "P|f|1", "P|f|0", "S|6162", "S|", "D|fin|0|12|fin|0|0", "D|inf|1|0|fin|0|0", "-"]
     for r in rvals:
@@ -408,6 +432,25 @@ def value_class(e):
     return "obj~" + max(like, key=len) if like else "obj"
 
 
+def object_pair_class(ex, i):
+    """for a user-type parameter of an actual call: the comparison functions installed for its type name so far, and how the actual object
+    relates to the expected one(s) of that parameter (the same object / the same content in another object / another content)"""
+    l = ex[i]
+    f = str(l[3]).split("|")
+    if f[0] != "O":
+        return ""
+    modes = sorted({x[3] for x in ex[:i] if x[0] == "installcmp" and x[2] == f[1]})
+    rel = set()
+    for x in ex[:i]:
+        if x[0] == "expect" and x[1] == l[1] and x[6] != "-":
+            for p in str(x[6]).split(";"):
+                k, v = p.split("=", 1)
+                g = v.split("|")
+                if k == l[2] and g[0] == "O" and g[1] == f[1]:
+                    rel.add("same-object" if (g[2:] == f[2:] and len(g) == 4 and g[3] != "0") else ("same-content" if g[2] == f[2] else "other-content"))
+    return ":cmp-%s:%s" % ("+".join(modes) or "none", "+".join(sorted(rel)) or "unrelated")
+
+
 def detail(ex, i):
     """what distinguishes the failing call within its operation (part of the divergence key)"""
     if i >= len(ex):
@@ -421,7 +464,7 @@ def detail(ex, i):
         nsc = len({x[1] for x in ex[:i] if x[0] == "installcmp" and x[2] == f[1]}) if f[0] == "O" else 0
         if f[0] == "D":
             return ":D:tolerance-" + tolerance_class(ex, i)
-        return ":" + value_class(l[3]) + (":comparators-in-%d-scopes" % nsc if nsc > 1 else "")
+        return ":" + value_class(l[3]) + object_pair_class(ex, i) + (":comparators-in-%d-scopes" % nsc if nsc > 1 else "")
     if op == "setdata":
         return ":" + value_class(l[3])
     if op == "getdata":
@@ -517,6 +560,7 @@ def run(ctx):
     # ---- leg 2: TLC-generated scenarios + the per-type sweep, both interfaces
     distinct = set()
     allx = []
+    source = {}
     for lab, D, nq, nt, kw in GEN:
         n = nq if quick else nt
         g = ctx.tlc("Gen_Mock", ctx.write_cfg("Gen_Mock_" + lab, G.gen_cfg(D, **kw)), workers=8, simulate=n, depth=(D + 5) if n else None, timeout=1500, heap="8g")
@@ -526,15 +570,27 @@ def run(ctx):
             raise Infra("no behaviours generated by " + lab)
         ctx.sample({"source": "TLC " + lab, "execution": ["\t".join(l) for l in execs[ctx.rng.randrange(len(execs))]][:14]})
         allx += execs
+        source.update({json.dumps(e): lab for e in execs})
     ngen = len(allx)
     allx = [e for e in allx if contiguous_calls(e)]
-    main, older, child_removal = [], [], []
+    main, older, child_removal, origin = [], [], [], []
     for e in allx:
         e2, fam = G.assign_via(e, ctx.rng, True)
-        (child_removal if removes_in_child(e2) else (older if fam else main)).append(e2)
+        # (a read of an older call's return value puts the scenario into that family, whatever else it does)
+        (older if fam else (child_removal if removes_in_child(e2) else main)).append(e2)
+        if not fam and not removes_in_child(e2):
+            origin.append(source[json.dumps(e)])
     ctx.notes["generated"] = {"behaviours": ngen, "expressible_in_c": len(allx), "family_older_call": len(older), "family_removeall_in_child_scope": len(child_removal)}
     if quick and len(main) > 2500:
-        main = ctx.rng.sample(main, 2500)
+        # a sample of 2500: up to 400 behaviours of every generation configuration, the rest from the largest one
+        by = {}
+        for e, lab in zip(main, origin):
+            by.setdefault(lab, []).append(e)
+        big = max(by, key=lambda lab: len(by[lab]))
+        quota = {lab: min(len(v), 400) for lab, v in by.items()}
+        quota[big] = min(len(by[big]), max(400, 2500 - sum(q for lab, q in quota.items() if lab != big)))
+        main = [e for lab, v in sorted(by.items()) for e in ctx.rng.sample(v, quota[lab])]
+        ctx.notes["quick_sample"] = {lab: "%d of %d" % (quota[lab], len(v)) for lab, v in sorted(by.items())}
     sw = sweep(ctx.rng, quick)
     ctx.sample({"source": "per-type sweep", "execution": ["\t".join(map(str, l)) for l in sw[len(sw) // 2]]})
     # ---- seeded random scenarios restricted to what both interfaces can express
@@ -571,10 +627,12 @@ def run(ctx):
         raise Infra("entry points of the C function tables never driven: %s" % missing)
     return ctx.finish(
         rule="scenarios = TLC-generated behaviours of Mock (typed return values, typed getters with and without default, output parameters, scopes, "
-             "disable/enable, comparators and copiers installed / inherited / removed per scope with two comparison and two copy functions, the data "
-             "store with objects of user types) + a per-type sweep (every parameter / return type x boundary lattice, every getter on every return type, "
+             "disable/enable, comparators and copiers installed / inherited / removed per scope with five comparison functions (two equalities, never, "
+             "always, expected-below-actual) and two copy functions, every comparison function x every pair of expected / actual object (the very same "
+             "object, the same content in another object, another content) for one expectation and one call, the data store with objects of user types) + a per-type sweep (every parameter / return type x boundary lattice, every getter on every return type, "
              "data store, every user-type name of mockgen.user_type_names() as parameter / output / data object, every ordered pair of scopes x pair of "
-             "functions for one type name) + seeded random scenarios expressible in both interfaces (user types installed per scope by "
+             "functions for one type name, every comparison function x the same object / an equal object / a different object in the global and "
+             "in a child scope) + seeded random scenarios expressible in both interfaces (user types installed per scope by "
              "mockgen.install_plan); each is executed twice, through mock() and through mock_c(), as the body of a fixture test; "
              "distinct = distinct scripts with at least one actual call or data read",
         distinct_nontrivial=len(distinct), exhaustive=False,
@@ -585,7 +643,9 @@ def run(ctx):
                      "a return value is read only after an actual call of the same test (the three families that leave this frame are run and keyed separately)",
                      "failure texts are compared after replacing hexadecimal addresses",
                      "an object read back through the C tagged union carries no type name; only its content is compared",
-                     "user types: objects are records of two ints, the comparison functions are 'all fields' / 'first field only', the copy functions 'bytes' / "
+                     "user types: objects are records of two ints, the comparison functions are 'all fields' / 'first field only' / 'never' / 'always' / "
+                     "'expected first field below the actual one' (a comparator need not be reflexive or symmetric; it alone decides, also when expected and "
+                     "actual are one and the same object - scripts say which object holds a content: one of its own or the n-th shared one), the copy functions 'bytes' / "
                      "'bytes inverted' (4-byte output objects); an output parameter of a user type is expected only where a copier is in force ('No way to "
                      "copy' is not modelled); comparators and copiers are removed only while no expectation exists (an expectation keeps the function it "
                      "bound); the harness addresses the call's scope again before a user-type parameter, as the fluent form does",
